@@ -1,0 +1,30 @@
+//go:build verif
+// +build verif
+
+// Machine-checked contracts for package coroutine (comment-only; read by /verif/govc).
+
+package coroutine
+
+// coroutine.status (manual §6.2): the coroutine asked about is "running" when it
+// is the calling thread, otherwise "suspended", "normal" (it has resumed someone
+// else) or "dead" according to its state.
+//@ func statusString
+//@   prop C09
+//@   arith int
+//@   requires co != nil
+//@   modifies nothing
+//@   ensures co == running ==> status == "running"
+//@   ensures co != running && co.status == runtime.ThreadDead ==> status == "dead"
+//@   ensures co != running && co.status == runtime.ThreadSuspended ==> status == "suspended"
+//@   ensures co != running && co.status == runtime.ThreadOK ==> status == "normal"
+
+// A wrapped coroutine is resumed on behalf of the thread that CALLS the wrapper
+// (the first parameter of the wrapper function), not the thread that created it.
+//@ func wrap$1
+//@   prop C09
+//@   arith int
+//@   norte
+//@   nocover
+//@   modifies everything()
+//@   exits any
+//@   assert_before_call Resume: $caller == param0
